@@ -434,3 +434,70 @@ def check_c20(prop, tier, seed):
 
 
 PLANS["C20"] = check_c20
+
+
+GEN_THEMES = {
+    "Orders": [({"tf": 1, "hf": 1, "plus": 7}, "free", "simple", 1), ({"tf": 2, "hf": 0, "plus": 0}, "alloc", "simple", 2),
+               ({"tf": 1, "hf": 0, "plus": 0}, "free", "movable", 1), ({"tf": 3, "hf": 0, "plus": 0}, "free", "simple", 1)],
+    "Targeted": [({"tf": 2, "hf": 0, "plus": 0}, "free", "simple", 1), ({"tf": 1, "hf": 0, "plus": 1}, "alloc", "simple", 1),
+                 ({"tf": 3, "hf": 1, "plus": 0}, "free", "movable", 2)],
+    "Classy": [({"tf": 3, "hf": 0, "plus": 0}, "free", "zeroed", 1), ({"tf": 3, "hf": 0, "plus": 0}, "free", "zeroslot0", 1),
+               ({"tf": 3, "hf": 0, "plus": 0}, "free", "custom", 1), ({"tf": 2, "hf": 0, "plus": 0}, "free", "movable", 1),
+               ({"tf": 2, "hf": 0, "plus": 0}, "free", "zeroslot", 1)],
+    "Offline": [({"tf": 3, "hf": 0, "plus": 0}, "free", "simple", 1), ({"tf": 2, "hf": 1, "plus": 0}, "free", "zeroed", 1),
+                ({"tf": 2, "hf": 0, "plus": 0}, "alloc", "simple", 1)],
+}
+_gen_cache = {}
+
+
+def gen_sequences(theme, depth):
+    """TLC enumerates every sequence of `depth` letters of the theme's alphabet (spec/Gen.tla)"""
+    import re
+    key = (theme, depth)
+    if key in _gen_cache:
+        return _gen_cache[key]
+    cfg = os.path.join(vlib.WORK, "MC_Gen_%s_%d_%d.cfg" % (theme, depth, os.getpid()))
+    open(cfg, "w").write("SPECIFICATION Spec\nCONSTANTS\n  Letters <- %s\n  Depth = %d\nINVARIANT Emit\nCHECK_DEADLOCK FALSE\n" % (theme, depth))
+    rc, out, dt = vlib.tlc("Gen", cfg=cfg, workers=1, xmx="4g", timeout=3000)
+    os.unlink(cfg)
+    if rc != 0:
+        raise vlib.ToolError("Gen.tla (%s) failed:\n%s" % (theme, out[-2000:]))
+    seqs = [json.loads(json.loads('"%s"' % m)) for m in re.findall(r'<<"SEQ", "((?:[^"\\]|\\.)*)">>', out)]
+    _gen_cache[key] = (seqs, vlib.tlc_stats(out))
+    return _gen_cache[key]
+
+
+def script_jobs(tier, seed, themes=None):
+    """bounded-exhaustive symbolic sequences -> harness script jobs"""
+    depth = 3 if tier == "quick" else 4
+    geos = ["th4", "th1"] if tier == "quick" else ["th4", "th1", "th2", "th8"]
+    jobs, nseq, states = [], 0, 0
+    os.makedirs(vlib.WORK, exist_ok=True)
+    for theme in (themes or GEN_THEMES):
+        seqs, st = gen_sequences(theme, depth)
+        states += st[1]
+        nseq += len(seqs)
+        cfgs = GEN_THEMES[theme]
+        per = 1 if tier == "quick" else len(cfgs)
+        chunk = 450
+        for gi, g in enumerate(geos):
+            lines = []
+            for i, sq in enumerate(seqs):
+                for j in range(per):
+                    fr, init, cls, k = cfgs[(i + j + gi + seed) % len(cfgs)]
+                    lines.append(json.dumps({"run": "%s:%d" % (theme, i), "frames": fr, "init": init, "cls": cls, "k": k, "ops": sq}))
+            for c in range(0, len(lines), chunk):
+                p = os.path.join(vlib.WORK, "script-%s-%s-%d-%d.jsonl" % (theme, g, os.getpid(), c))
+                open(p, "w").write("\n".join(lines[c:c + chunk]) + "\n")
+                jobs.append((g, ["script", "in=" + p]))
+    return jobs, nseq, states
+
+
+def cleanup_scripts(jobs):
+    for g, a in jobs:
+        for x in a:
+            if x.startswith("in="):
+                try:
+                    os.unlink(x[3:])
+                except OSError:
+                    pass
